@@ -1,7 +1,7 @@
 """G7 - lists of CoCoFile specs (plain dicts; to_coco() builds the repository's CoCoFile)."""
 NAMECH = "ABCDEFGHIJKLMNOPQRSTUVWXYZabcdefghijklmnopqrstuvwxyz0123456789"
 PUNCT = "!#$%&()-@^_{}~<U"
-ADDR = [0, 1, 0xFF, 0x100, 0x0E00, 0x3F00, 0x7FFF, 0x8000, 0xFFFE, 0xFFFF]
+ADDR = [0, 1, 0xFF, 0x100, 0x0E00, 0x3F00, 0x7FFF, 0x8000, 0xFFFE, 0xFFFF, 0x553C, 0x3C55, 0x5555]   # $55 $3C = the tape sync pair inside a header (wave 10, C09-N)
 TAPE_LEN = [0, 1, 2, 254, 255, 256, 257, 509, 510, 511, 512, 764, 765, 766, 1020, 1275, 2549, 2550, 2551]
 DISK_LEN = [0, 1, 2, 3, 5, 9, 10, 11, 12, 245, 246, 250, 251, 253, 255, 256, 257, 2293, 2294, 2295, 2296, 2299, 2300, 2301, 2303, 2304,
             2305, 4597, 4598, 4599, 4600, 4603, 4604, 4605, 4607, 4608, 4609, 6902, 6903, 6912, 9206, 9216]
@@ -41,9 +41,16 @@ def gen_file(rnd, medium, length=None, unique=None, maxname=12):
     if unique is not None:
         name = ("%d%s" % (unique, name))[:maxname] if medium == "disk" else name
     ext = {"ml": "BIN", "basic": "BAS", "ascii": "BAS", "data": "DAT", "text": "TXT", "ml-ascii": "BIN", "data-bin": "DAT"}[kind][:rnd.choice([3, 3, 3, 2, 1, 0])] if medium == "disk" else ""
-    return {"name": name, "ext": ext, "type": t, "dtype": dt, "gaps": rnd.choice([None, None, 0x00, 0xFF]) if medium == "tape" else None,
+    spec = {"name": name, "ext": ext, "type": t, "dtype": dt, "gaps": rnd.choice([None, None, 0x00, 0xFF]) if medium == "tape" else None,
             "load": rnd.choice(ADDR + [rnd.randrange(65536)]),
             "exec": rnd.choice(ADDR + [rnd.randrange(65536)]), "data": content(rnd, length).hex(), "kind": kind}
+    if medium == "tape" and rnd.random() < 0.08:
+        # the sync pair made of the last header byte and the header's check sum: exec $xx55, load dialled so that the sum is $3C
+        spec["exec"] = (rnd.randrange(256) << 8) | 0x55
+        nm = name[:8].ljust(8).encode("latin-1", "replace")
+        part = 0x00 + 0x0F + sum(nm) + t + dt + (spec["gaps"] or 0) + (spec["load"] >> 8) + (spec["exec"] >> 8) + 0x55
+        spec["load"] = (spec["load"] & 0xFF00) | ((0x3C - part) & 0xFF)
+    return spec
 
 
 def to_coco(spec):
